@@ -735,6 +735,15 @@ fn main() {
             let c = beh::gen_rep_case(args[2].parse().expect("index"));
             println!("{}\n// spec: {}", c.script, c.spec.lines().next().unwrap_or(""));
         }
+        Some("mir-rep") => {
+            // print the real lowerer's MIR of representative <idx> of the behavioural battery
+            let c = beh::gen_rep_case(args[2].parse().expect("index"));
+            let rt = beh::runtime();
+            match roto::verif_hooks::core::lower_to_mir(FileTree::test_file("c02.roto", &c.script, 0), &rt) {
+                Ok(m) => println!("{}", m.text()),
+                Err(e) => println!("ERROR {e}"),
+            }
+        }
         Some("show-ctor") => {
             // print constructor representative <idx> (or `r<seed>:<idx>`, a generated one)
             let pr = match args[2].strip_prefix('r').and_then(|x| x.split_once(':')) {
